@@ -31,14 +31,14 @@ PROFILES: List[Tuple[str, float, Dict[str, Any]]] = [
     ('reexport',  4, dict(reexport=0.6, roots=(1, 3))),
     ('consumers', 2, dict(reexport=0.7, roots=(2, 3), consumer_roots=True)),
     ('cyclic',    3, dict(reexport=0.3, cyclic=True, roots=(1, 2))),
-    ('cyclic-star', 3, dict(reexport=0.2, cyclic=True, star=0.7, roots=(1, 2), own_all=0.1)),
+    ('cyclic-star', 5, dict(reexport=0.2, cyclic=True, star=0.7, roots=(1, 2), own_all=0.1)),
     # many re-exporting modules over small defining modules: a class and its base are often moved by different
     # re-exporters, a subclass often sits in a plain module whose position in the order is free
     ('layers',    6, dict(reexport=0.9, roots=(2, 3), consumer_roots=True, children=(4, 7), subpkg=0.2, defs=(1, 3), imports=(2, 3), star=0.05,
                           nested=0.0, own_all=0.0, alias=0.05, max_modules=10, prefer_local=0.8)),
     ('multi',     1, dict(reexport=0.7, multi_reexport=True, roots=(1, 3))),
     ('zope',      1, dict(reexport=0.3, zope=1.0, roots=(1, 2))),
-    ('docassign', 1, dict(reexport=0.3, docassign=0.7, roots=(1, 2))),
+    ('docassign', 1, dict(reexport=0.3, docassign=0.7, docassign_modules=True, roots=(1, 2))),
     ('dups',      1, dict(reexport=0.4, dup=0.5, dup_mixed=True, roots=(1, 2))),
     ('shadow',    2, dict(reexport=0.7, shadow_import=0.7, rebind_same=0.4, roots=(1, 3), consumer_roots=True)),
     ('attrs',     4, dict(reexport=0.4, attr_pool=0.9, method_pool=True, defs=(2, 4), roots=(1, 2), nested=0.0, star=0.05)),
